@@ -69,7 +69,8 @@ def run_demo(d, demo):
 
 
 def run_check(d, cid, tier="quick"):
-    env = dict(os.environ, VERIF_REPO=d, VERIF_NO_EVIDENCE="1")
+    env = dict(os.environ, VERIF_REPO=d, VERIF_NO_EVIDENCE="1",
+               VERIF_REPLAY_DIR=os.path.join(d, "_replay"))
     r = _run([os.path.join(VERIF, "check"), cid, "--tier", tier], 1500, cwd=VERIF, env=env)
     sigs = [l.strip() for l in r.stderr.splitlines() if l.strip().startswith("signature=")]
     last = [l for l in r.stdout.splitlines() if l.startswith(cid + ":") or l.startswith("INCONCLUSIVE")]
